@@ -415,14 +415,25 @@ impl<'a, W: Write> Writer<'a, W> {
             return Ok(num_bytes);
         }
 
-        self.codec.compress(&mut self.buffer)?;
+        // Compress a copy of the pending block: if the sink fails below, the block has to stay
+        // pending as it is, otherwise the next flush would compress it a second time.
+        let compressed = if matches!(self.codec, Codec::Null) {
+            None
+        } else {
+            let mut block = self.buffer.clone();
+            self.codec.compress(&mut block)?;
+            Some(block)
+        };
 
         let num_values = self.num_values;
-        let stream_len = self.buffer.len();
+        let stream_len = compressed.as_ref().map_or(self.buffer.len(), Vec::len);
 
         num_bytes += self.append_raw(&num_values.try_into()?, &Schema::Long)?
             + self.append_raw(&stream_len.try_into()?, &Schema::Long)?
-            + self.append_buffer()?
+            + match &compressed {
+                Some(block) => self.append_bytes(block)?,
+                None => self.append_buffer()?,
+            }
             + self.append_marker()?;
 
         self.buffer.clear();
